@@ -462,10 +462,14 @@ fn main() {
         // long tail, oracle only
         tail::round(cx, &mut r, round);
     }
-    // one large payload per run (thorough): 2^16-byte block body => 4-byte length head
+    // large payloads (thorough): >= 2^16-byte bodies => 4-byte length heads. Oracle only: a list literal of
+    // that size overflows the stack of Coq's parser, and the theorems cover every length anyway.
     if args.tier == "thorough" {
-        let m = Bf::Block(r.bytes(65536 + 3)); let (t, n) = t_bf(&m);
-        run_one(cx, "n1", "blockfetch", n, &m, &s1::bf(&m), s1::bf_b, Some(format!("(CBf {} @BYTES@)", t)));
+        let m = Bf::Block(r.bytes(65536 + 3)); let (_, n) = t_bf(&m);
+        run_one(cx, "n1", "blockfetch", n, &m, &s1::bf(&m), s1::bf_b, None);
+        run_one(cx, "n2", "blockfetch", n, &m, &s2::bf(&m), s2::bf_b, None);
+        let m = Ts::ReplyTxs(vec![(6, r.bytes(70000)), (7, vec![])]); let (_, n) = t_ts(&m);
+        run_one(cx, "n1", "txsubmission", n, &m, &s1::ts(&m), s1::ts_b, None);
     }
     tail::reject_samples(cx);
     emit_stat("tail_messages", cx.tail);
